@@ -47,7 +47,7 @@ func src(n ast.Node) string {
 }
 
 // modDir returns the directory of a required module in the module cache (version from /repo's go.mod).
-func modDir(mod string) (string, error) {
+func pxModDir(mod string) (string, error) {
 	gm, err := os.ReadFile(filepath.Join(repo, "go.mod"))
 	if err != nil {
 		return "", err
@@ -76,7 +76,7 @@ func modDir(mod string) (string, error) {
 var absConstCache = map[string]map[string]constant.Value{}
 
 // dirConsts type-checks the non-test files of an absolute directory with imports stubbed and returns its constants.
-func dirConsts(dir string) (map[string]constant.Value, error) {
+func pxDirConsts(dir string) (map[string]constant.Value, error) {
 	if c, ok := absConstCache[dir]; ok {
 		return c, nil
 	}
@@ -111,11 +111,11 @@ func dirConsts(dir string) (map[string]constant.Value, error) {
 }
 
 func apiInt(name string) (int64, error) {
-	d, err := modDir("mosn.io/api")
+	d, err := pxModDir("mosn.io/api")
 	if err != nil {
 		return 0, err
 	}
-	cs, err := dirConsts(d)
+	cs, err := pxDirConsts(d)
 	if err != nil {
 		return 0, err
 	}
@@ -819,7 +819,7 @@ func (t *threader) block(stmts []ast.Stmt, ind, fall string) (string, error) {
 	return "", fmt.Errorf("unsupported statement %q", src(st))
 }
 
-func isLogStmt(st ast.Stmt) bool {
+func pxIsLogStmt(st ast.Stmt) bool {
 	switch x := st.(type) {
 	case *ast.ExprStmt:
 		return strings.HasPrefix(src(x.X), "log.")
@@ -827,7 +827,7 @@ func isLogStmt(st ast.Stmt) bool {
 		c := src(x.Cond)
 		if strings.HasPrefix(c, "log.") && strings.Contains(c, "GetLogLevel()") && x.Else == nil {
 			for _, b := range x.Body.List {
-				if !isLogStmt(b) {
+				if !pxIsLogStmt(b) {
 					return false
 				}
 			}
@@ -1113,11 +1113,11 @@ func genProxyRetry() (string, error) {
 	}
 	thr := int64(0)
 	if sm[2] == "http.InternalServerError" {
-		d, err := modDir("mosn.io/pkg")
+		d, err := pxModDir("mosn.io/pkg")
 		if err != nil {
 			return "", err
 		}
-		cs, err := dirConsts(filepath.Join(d, "protocol", "http"))
+		cs, err := pxDirConsts(filepath.Join(d, "protocol", "http"))
 		if err != nil {
 			return "", err
 		}
